@@ -490,7 +490,51 @@ def history_strategy(tier):
                                              st.lists(ops, min_size=1, max_size=maxops)))
 
 
+# ---------------------------------------------------------------------------
+# the assigned value is the vector itself (the right-hand side is read before anything is written)
+def check_selfassign(c):
+    n, x = c["n"], c["x"]
+    b = guard(Bits, x, n)
+    keep = guard(Bits, b)
+    if c["sel"] == "list":
+        sel, pos = list(c["perm"]), list(c["perm"])
+    else:
+        sel = slice(*c["sel"])
+        pos = list(range(n)[sel])
+    expect(len(pos) == n, "harness: selection must address every bit")
+    guard(operator.setitem, b, sel, b)
+    is_vec(b, M.assign((0, n), pos, x), "b[%s]=b" % ("list" if c["sel"] == "list" else "slice"))
+    is_vec(keep, (x, n), "b[..]=b:copy-changed")
+
+
+def selfassign_cases(tier, rnd):
+    top = 5 if tier == "quick" else 7
+    for n in range(top + 1):
+        perms = list(itertools.permutations(range(n)))
+        for x in range(1 << n):
+            for p in perms:
+                yield {"n": n, "x": x, "sel": "list", "perm": p}
+            for sl in ((None, None, -1), (None, None, None), (0, n, 1), (-n - 1 if n else None, None, None)):
+                if len(range(n)[slice(*sl)]) == n:
+                    yield {"n": n, "x": x, "sel": sl}
+    for n in (8, 13, 31, 32, 33, 63, 64, 65, 128, 256):
+        for _ in range(4 if tier == "quick" else 40):
+            x = rnd.getrandbits(n)
+            idx = list(range(n))
+            yield {"n": n, "x": x, "sel": (None, None, -1)}
+            yield {"n": n, "x": x, "sel": "list", "perm": tuple(idx[1:] + idx[:1])}
+            yield {"n": n, "x": x, "sel": "list", "perm": tuple(idx[::-1])}
+            rnd.shuffle(idx)
+            yield {"n": n, "x": x, "sel": "list", "perm": tuple(idx)}
+
+
 FACETS = [
+    Facet("self-assignment", check_selfassign, cases=selfassign_cases, exhaustive=False, distinct=True,
+          nontrivial=lambda c: c["n"] >= 2 and c["x"] not in (0, (1 << c["n"]) - 1),
+          classify=lambda c: ("list" if c["sel"] == "list" else "slice", "n<=7" if c["n"] <= 7 else "n>7"),
+          shards={"quick": 2, "thorough": 8},
+          rule="b[sel] = b for every permutation list and full-length slice (reversal, [:], [0:n]) at sizes 0..5 (0..7 thorough), "
+               "every value; reversal / rotation / random permutation at sizes 8..256"),
     Facet("operators-exhaustive", check_op, cases=op_cases, exhaustive=True, distinct=True,
           nontrivial=nontriv_op, classify=classify_op, shards={"quick": 12, "thorough": 16},
           rule="every vector of size 0..6 (127 values), every ordered pair (16 129), every int operand < 2^(size+1) on either side, "
